@@ -1442,8 +1442,13 @@ def c15(res, wd):
     engines.obs_runs(res, "C15", ps, {"C15"}, wd, "c15", nontrivial=lambda st, pl: st["ticks"] >= 200,
                      cls_of=lambda p: "lead%d" % p["_k"])
     # (3) the recommendation gate is judged on every drained WaitRecommendation of these and all runs
-    res.rule = ("(1) TimeSync.tla: 30-slot windows, exact rational average; records of the real window under random and "
-                "adversarial sequences validated by TLC (f32 boundary behaviour modelled as a relation); (2) real two-peer "
+    # (4) binding: random runs that query network_stats() at random points (also too early, for invalid handles,
+    # on spectators) replayed through System.tla - result and all four figures must equal the specification's
+    sps = plans.batch(res.seed * 1000 + 151, sizes(res.tier, 4, 16), 60, fam=plans.with_stats)
+    engines.conform_sample(res, "C15", sps, wd, "c15s", len(sps))
+    res.rule = ("(1) TimeSync.tla: 30-slot windows; F32.tla gives the code's f32 average as an exact integer function; "
+                "records of the real window under random and adversarial sequences must EQUAL it (TLC); "
+                "(4) network_stats() results of random runs compared with the specification (Trace_Sys); (2) real two-peer "
                 "sessions under the virtual clock for every lead -7..7 x one-way latency {0,8,16,33,50,100} ms x fps "
                 "{30,60} that keeps the leader inside its window; after the warm-up Monitor.tla demands on every call "
                 "|frames_ahead - real lead| <= 2 and |sum of both peers' frames_ahead| <= 2, on every network_stats call "
@@ -1451,7 +1456,7 @@ def c15(res, wd):
                 "WaitRecommendation only with skip = frames_ahead >= 3 and >= 60 frames apart.  'About' is +-2 frames "
                 "here: +-1 estimation, +-1 because the two sessions are sampled at different instants.")
     res.assumptions += ["equal input delays (a delay difference d biases frames_ahead by d/2 by construction)",
-                        "float rounding of the window average only matters at exact multiples of 60 (modelled)"]
+                        "f32 model validated for window sums up to +-30720 (|advantage| <= 1024 per slot)"]
 
 
 CHECKS = {
